@@ -32,6 +32,7 @@ from sim import rng as simrng          # noqa: E402
 from sim import registry               # noqa: E402
 from sim import world                  # noqa: E402
 from sim.watchdog import WatchdogTimeout   # noqa: E402
+from sim import stateguard             # noqa: E402
 
 RUN_WATCHDOG_S = int(os.environ.get('VERIF_RUN_WATCHDOG', '20'))
 
@@ -78,6 +79,7 @@ def execute_plan(plan):
                'watchdog': True}
     finally:
         signal.alarm(0)
+        stateguard.restore()
     res['wall'] = time.perf_counter() - t0
     res['digest'] = digest(res.get('events', []))
     return res
@@ -153,6 +155,8 @@ def minimise(path, outpath):
 
 def main(argv):
     faulthandler.enable()
+    stateguard.preload()
+    stateguard.snapshot()
     if argv[1] == '--serve':
         serve()
     elif argv[1] == '--replay':
